@@ -102,6 +102,13 @@ def specs(tier):
         spec['grammar'] = gr
         spec['prince'] = [('D10', .3), ('D100', .25), ('A105', .15), ('D1', .1), ('D101', .1), ('A10', .05), ('A1', .05)]
         yield spec
+    # probabilities that Python writes in exponent notation, with and without a decimal point in the mantissa
+    for term in TERMINALS[:2]:
+        for gr in ([('A1D1', .6), ('D2', .39995), ('D1', 5e-05)], [('D1D1', .7), ('A2A1', .29998765), ('Y1O1', 1.235e-05)], [('M', .5), ('A1', .49999), ('D1', 1e-05)]):
+            spec = dict(term)
+            spec['grammar'] = gr
+            spec['prince'] = [('A1', .6), ('D1', .39995), ('O1', 5e-05)]
+            yield spec
     # structure lists that are NOT in descending order of probability (a merged or hand-edited grammar.txt; edit_rules.py keeps whatever order it
     # finds): the queue owes its order to the heap, not to the order of the file
     for term in TERMINALS[:2]:
